@@ -626,6 +626,15 @@ def _sep_pred(e, pat):
         if len(bs) == 1:
             return lambda e2, b: e2.binop("Eq", b, Int(8, 0, bs[0]))
         raise Unsupported("split on multi-byte pattern")
+    if isinstance(pat, Agg) and pat.ty == "array" and all(isinstance(x, Int) for x in pat.f):
+        chars = list(pat.f)                      # [char; N] pattern: any of the characters
+
+        def anyof(e2, b):
+            r = False
+            for ch in chars:
+                r = b_or(r, e2.binop("Eq", e2.cast("IntToInt", b, "char"), ch) if ch.w == 32 else e2.binop("Eq", b, ch))
+            return r
+        return anyof
     if isinstance(pat, (Agg, FnItem)):
         return lambda e2, b: e2.call_closure(pat, [e2.cast("IntToInt", b, "char")])
     raise Unsupported(f"split pattern {pat!r}")
